@@ -315,40 +315,49 @@ theorem closedB_universe (bs : Builtins) (π : List Name) (inp : Inputs) (g : Op
 theorem filter_true {α : Type} (x : Option α) : x.filter (fun _ => true) = x := by
   cases x <;> rfl
 
-theorem filter_bind_parseBool (x : Option String) :
-    (x.filter (fun v => (parseBool v).isSome)).bind parseBool = x.bind parseBool := by
-  cases x with
-  | none => rfl
-  | some v =>
-    cases h : parseBool v with
-    | none => simp [Option.filter, h]
-    | some b => simp [Option.filter, h]
+/-- The file half of the `String` getter is `get_string`: the value itself, `""` for a key without
+    value (a fact about the generated `getterParsers` row). -/
+theorem fileRead_string (v : String) : fileRead .string v = some ((fileValue v).getD "") := by
+  have h : (parsersOf GType.string.name).2 = "git-string" := by decide
+  unfold fileRead
+  rw [h]
+  simp [fileReadBy]
+
+theorem fileRead_string_cases (v : String) :
+    fileRead .string v = some v ∨ fileRead .string v = some "" := by
+  rw [fileRead_string]
+  unfold fileValue
+  by_cases h : v = bareMark
+  · right; simp [h]
+  · left; simp [h]
 
 /-- The `String` getter on a `[delta "f"]` section: the file only. -/
 theorem get_section (g : GitCfg) (f k : Name) :
     g.get (some f) k =
       if g.enabled then
-        (match lookup f g.file.sections with | some sct => lookup k sct | none => none)
+        (match lookup f g.file.sections with
+         | some sct => (lookup k sct).bind (fileRead .string)
+         | none => none)
       else none := by
   unfold GitCfg.get GitCfg.getT
   by_cases he : g.enabled
   · simp only [he, ↓reduceIte]
-    cases lookup f g.file.sections with
-    | none => rfl
-    | some sct => exact filter_true _
+    cases lookup f g.file.sections <;> rfl
   · simp [he]
 
 theorem getBool_section (g : GitCfg) (f k : Name) :
     g.getBool (some f) k =
       if g.enabled then
-        (match lookup f g.file.sections with | some sct => (lookup k sct).bind parseBool | none => none)
+        (match lookup f g.file.sections with
+         | some sct => ((lookup k sct).bind (fileRead .bool)).bind parseBool
+         | none => none)
       else none := by
   unfold GitCfg.getBool GitCfg.getT
   by_cases he : g.enabled
   · simp only [he, ↓reduceIte]
     cases lookup f g.file.sections with
     | none => rfl
-    | some sct => exact filter_bind_parseBool _
+    | some sct => rfl
   · simp [he]
 
 theorem closedR_universe (bs : Builtins) (π : List Name) (inp : Inputs) (g : GitCfg) :
@@ -366,7 +375,15 @@ theorem closedR_universe (bs : Builtins) (π : List Name) (inp : Inputs) (g : Gi
     | some sct =>
       simp only [hs] at hc
       refine List.mem_flatMap.mpr ⟨(f, sct), lookup_mem f _ sct hs, ?_⟩
-      exact hc
+      cases hv : lookup "features" sct with
+      | none => simp [hv] at hc
+      | some v =>
+        simp only [hv, Option.bind_some] at hc ⊢
+        rcases fileRead_string_cases v with h | h
+        · simpa [h] using hc
+        · rw [h] at hc
+          have : splitFeatureString "" = [] := by decide
+          simp [this] at hc
   · simp [he] at hc
 
 /-- **The fuel suffices**: any fuel at least `fuelFor …` gives the result the model computes. -/
